@@ -176,6 +176,12 @@ NoOrphansOf(rt) ==
     /\ (DOMAIN rt[o].table \cup DOMAIN rt[o].pend) \subseteq Known(o)
     /\ DOMAIN rt[o].table \cap DOMAIN rt[o].pend = {}
 
+\* every node the gossip state knows is tracked by the syncer: pending or in the routing table (a node that
+\* left may have been discarded while it was pending: known finding F5 / the syncer's own rule)
+AllKnownTrackedOf(rt) ==
+  \A o \in Node : \A n \in Known(o) \ {o} :
+    n \in DOMAIN rt[o].table \/ n \in DOMAIN rt[o].pend \/ st[o][n].left
+
 \* LookupEndpoint(e) may return any active remote node advertising e
 LookupCandidates(r, k) ==
   {n \in DOMAIN r.table : r.table[n].status = "active" /\ k \in DOMAIN r.table[n].eps /\ r.table[n].eps[k] > 0}
